@@ -90,7 +90,7 @@ def list_effects(res):
     return out
 
 
-@rule("C20-D3", "C20", 2, "Freelist::None: a release that is not on top adds `size` to discarded exactly once, touches no list word and returns true")
+@rule("C20-D3", "C20", 2, "Freelist::None: a release that is not on top adds `size` to discarded exactly once, touches no list word and returns true", also=("C01",))
 def d3(ctx):
     for fl in FLAVOURS:
         b = ctx.facts.one(r"^<%s::Arena as allocator::Allocator>::dealloc$" % fl)
